@@ -157,6 +157,20 @@ CHECKS = {
              "str.format/int(x,2)/Enum/Decimal semantics.",
         tech="Coq proof (finite sweeps by vm_compute lifted by lemmas; list induction for enums) + translator + exhaustive correspondence",
     ),
+    "C13": dict(
+        text="Coq theorem (Heap_proofs.exec_sound): any table of functions accepted by the ownership checker never writes "
+             "to a cell that existed when the call started - any heap, arguments (aliased or not), oracle (branches, "
+             "iteration counts, elements picked, unknown values, where an exception cuts the run) and fuel; lifted to "
+             "histories of calls on arbitrary shared values, and to 'results are new objects'. The table is regenerated "
+             "on every run from every function of src/richchk outside the file-system layer by tools/translate_heap.py "
+             "(948 functions) and the checker is run on it inside Coq. Tie: the translator itself, its behaviour tables "
+             "for builtins, a validation of translator+checker against observed Python behaviour on sample functions, "
+             "and deep-snapshot runs of every public operation alone and in histories.",
+        ref="DESIGN.md 5.19",
+        note="Modelled, not verified: builtin/stdlib behaviour tables, scalar annotations, two memo caches "
+             "(_sections_by_name, _ENUM_ID_MAP) excluded as caches, import-time registration functions.",
+        tech="Coq proof (soundness of an ownership type checker for a heap language, induction on fuel) + source-to-Coq translator of every function + deep-snapshot differential runs",
+    ),
     "C15": dict(
         text="Coq theorems by complete enumeration, inside the kernel, of a fault-enumerating semantics of hand models of "
              "the five file-writing entry points: with the destination existing and the flag at its DEFAULT (read from the "
